@@ -225,6 +225,9 @@ type c07Pattern struct {
 
 var c07Patterns = []c07Pattern{{1, 0, true, 0}, {0xFFFF, 31, false, 15}, {0, 21, true, 7}, {0xA55A, 10, true, 8}}
 
+// c07SectionNumbers rotates independently of the patterns (5 against 4): (section_number, last_section_number)
+var c07SectionNumbers = [][2]byte{{0, 0}, {1, 1}, {0, 255}, {3, 7}, {0, 1}}
+
 type c07EntryOpt struct {
 	pid      int
 	reserved byte
@@ -324,6 +327,8 @@ func c07CheckSections(c c07SecCase) engine.Result {
 			pt := c07Patterns[k%len(c07Patterns)]
 			k++
 			sec.TSID, sec.Version, sec.CurrentNext = pt.tsid, pt.version, pt.cn
+			sn := c07SectionNumbers[(k/len(c07Patterns)+k)%len(c07SectionNumbers)]
+			sec.SectionNumber, sec.LastSectionNumber = sn[0], sn[1]
 			for i := range sec.Entries {
 				sec.Entries[i] = ref.PATEntry{Program: uint16(c.Programs[i]), PID: menu[idx[i]].pid, Reserved: menu[idx[i]].reserved}
 			}
@@ -888,7 +893,7 @@ func init() {
 		Scenarios: []engine.ScenarioRunner{
 			&engine.Enum[c07SecCase]{
 				Name: "sections",
-				Rule: "case = one program_number sequence of 0..4 entries (thorough 0..6) over {0,1,2,0xFFFF} with distinct non-zero numbers x one of 4 (transport_stream_id, version, current_next, cc) patterns; Check runs the full product of per-entry (PID in {0x10,0x100,0x1FFF,0x0FFF}, reserved bits in {111,000}) (thorough: 8 PIDs up to 3 entries, reserved {111,000,101}; 5-6 entries: cyclic covering family + single deviations) through 6 carriers: payload bytes, payload + 1/3 stuffing bytes, 188-byte packet (payload padded / adaptation-field stuffing), ReadPAT on the one-packet stream; each carrier: NumPrograms, ProgramMap (exact map), SPTSpmtPID (value or failure), IsPMT on every entry PID, +-1, bit-12 flip, low byte, 0, 1, 0x1FFF; non-trivial = each distinct section",
+				Rule: "case = one program_number sequence of 0..4 entries (thorough 0..6) over {0,1,2,0xFFFF} with distinct non-zero numbers x one of 4 (transport_stream_id, version, current_next, cc) patterns, rotating through 5 (section_number, last_section_number) pairs {0/0, 1/1, 0/255, 3/7, 0/1}; Check runs the full product of per-entry (PID in {0x10,0x100,0x1FFF,0x0FFF}, reserved bits in {111,000}) (thorough: 8 PIDs up to 3 entries, reserved {111,000,101}; 5-6 entries: cyclic covering family + single deviations) through 6 carriers: payload bytes, payload + 1/3 stuffing bytes, 188-byte packet (payload padded / adaptation-field stuffing), ReadPAT on the one-packet stream; each carrier: NumPrograms, ProgramMap (exact map), SPTSpmtPID (value or failure), IsPMT on every entry PID, +-1, bit-12 flip, low byte, 0, 1, 0x1FFF; non-trivial = each distinct section",
 				Gen:  c07GenSections, Check: witnessEnum(c07CheckSections, witnessPSI), Batch: 1,
 			},
 			&engine.Enum[c07BigCase]{
